@@ -18,7 +18,8 @@ OK = b"ok\n"
 class Hub:
     """Scripted device behind the fake serial port."""
 
-    def __init__(self, corrupt=(), holds=None, max_hold=0.08, mode="firmware"):
+    def __init__(self, corrupt=(), holds=None, max_hold=0.08, mode="firmware", instant=False):
+        self.instant = instant           # zero latency: the reply is read and handled by the host's reader BEFORE write() returns
         self.lock = threading.RLock()
         self.events = []
         self.corrupt = set(corrupt)      # indices (0-based) of job-phase transmissions the link corrupts
@@ -51,10 +52,23 @@ class Hub:
             self.ntx += 1
             bad = i in self.corrupt and data.startswith(b"N")    # un-numbered priority commands carry no checksum: not corrupted here
             self.events.append({"k": "tx", "text": list(data), "bad": bad, "i": i})
+            target = None
             if self.mode == "firmware":
                 for r in self._firmware(data, bad):
                     self.owed.append((r, time.monotonic()))
+                if self.instant is True or (self.instant and i in self.instant):
+                    # the writing thread is "descheduled" inside write(): everything owed is handed to the reader now
+                    while self.owed:
+                        line, _ = self.owed.pop(0)
+                        self.released.append((line, {"k": "rel", "text": list(line)}))
+                        self.nrel += 1
+                    target = self.nrel
             self.cv.notify_all()
+        if target is not None:
+            t0 = time.monotonic()
+            while self.nrel_seen < target and time.monotonic() - t0 < 0.3:
+                time.sleep(0.0005)
+            time.sleep(0.003)               # the reader thread handles the line it has just been given
 
     def _firmware(self, data, bad):
         """Marlin-style: convenience only, re-derived by SenderTrace.tla."""
@@ -254,11 +268,11 @@ def strip_job_line(raw):
     return code.strip()
 
 
-def run_job(lines, corrupt=(), holds=None, deadline=20.0, pauses=()):
+def run_job(lines, corrupt=(), holds=None, deadline=20.0, pauses=(), instant=False):
     """Stream `lines` with the real printcore. Returns the trace."""
     from gscrib.printrun import gcoder
     from gscrib.printrun.printcore import printcore
-    hub = Hub(corrupt=corrupt, holds=holds)
+    hub = Hub(corrupt=corrupt, holds=holds, instant=instant)
     job = [strip_job_line(x) for x in lines]
     job = [x for x in job if x]
     joined = False
@@ -329,7 +343,8 @@ def run_job(lines, corrupt=(), holds=None, deadline=20.0, pauses=()):
         e.setdefault("bad", False)
         e.setdefault("joined", False)
         e.pop("i", None)
-    return {"meta": {"corrupt": sorted(corrupt), "holds": {str(k): v for k, v in (holds or {}).items()}, "pauses": sorted(pauses)},
+    return {"meta": {"corrupt": sorted(corrupt), "holds": {str(k): v for k, v in (holds or {}).items()}, "pauses": sorted(pauses),
+                     "instant": bool(instant)},
             "job": [list(x.encode("ascii")) for x in job], "raw": lines, "ev": ev}
 
 
